@@ -446,3 +446,61 @@ def compare(c, o, m):
 
 def nontrivial(c, o):
     return "err" not in o and ("up" in o or o.get("nlines", 0) > 0 or o.get("cuts") or o.get("nfaces", 0) > 0 or "sections" in o)
+
+
+# ------------------------------------------------------------------ (G) the case table of mesh_plane, from the source
+
+def translate(ctx):
+    """constants of `intersections.mesh_plane.triangle_cases` by ast: the base code, the shifts, the length of the
+    lookup array and the codes switched on for each of the three returned masks"""
+    import ast
+    import os
+    tree = ast.parse(open(os.path.join(common.REPO, "trimesh/intersections.py")).read())
+    fn = None
+    for node in ast.walk(tree):
+        if isinstance(node, ast.FunctionDef) and node.name == "triangle_cases":
+            fn = node
+    if fn is None:
+        raise common.Broken("translate", "intersections.py: triangle_cases not found")
+    base = shifts = keylen = None
+    current, masks = [], {}
+    for st in fn.body:
+        src = ast.unparse(st)
+        if isinstance(st, ast.Assign) and src.startswith("coded = "):
+            v = st.value
+            if not (isinstance(v, ast.BinOp) and isinstance(v.op, ast.Add) and isinstance(v.right, ast.Constant)):
+                raise common.Broken("translate", "triangle_cases: `coded = zeros + const` changed shape: " + src)
+            base = int(v.right.value)
+        elif isinstance(st, ast.For) and "coded +=" in src:
+            rng_ = ast.literal_eval(st.iter.args[0]) if isinstance(st.iter, ast.Call) else None
+            body = st.body[0]
+            if not (rng_ == 3 and isinstance(body, ast.AugAssign) and isinstance(body.value, ast.BinOp)
+                    and isinstance(body.value.op, ast.LShift)):
+                raise common.Broken("translate", "triangle_cases: the shift loop changed shape: " + src)
+            expr = ast.unparse(body.value.right)
+            shifts = [int(eval(expr, {"i": i})) for i in range(rng_)]          # `3 - i`: arithmetic on the loop index only
+            if "signs_sorted[:, i]" not in ast.unparse(body.value.left):
+                raise common.Broken("translate", "triangle_cases: the loop no longer shifts the sorted signs")
+        elif isinstance(st, ast.Assign) and src.startswith("key = np.zeros("):
+            keylen = int(ast.literal_eval(st.value.args[0]))
+            current = []
+        elif isinstance(st, ast.Assign) and src.startswith("key[:] = False"):
+            current = []
+        elif isinstance(st, ast.Assign) and src.startswith("key[") and src.endswith("= True"):
+            idx = ast.literal_eval(st.targets[0].slice)
+            current = current + ([int(x) for x in idx] if isinstance(idx, list) else [int(idx)])
+        elif isinstance(st, ast.Assign) and ast.unparse(st.value) == "key[coded]":
+            masks[st.targets[0].id] = list(current)
+    ret = [n.id for n in fn.body[-1].value.elts] if isinstance(fn.body[-1], ast.Return) else []
+    if None in (base, shifts, keylen) or ret != ["basic", "one_vertex", "one_edge"] or set(masks) != set(ret):
+        raise common.Broken("translate", f"triangle_cases: could not recover the case table ({base}, {shifts}, {keylen}, {masks}, {ret})")
+    L = ["-- GENERATED by harness/props/C11.py from /repo/trimesh/intersections.py::mesh_plane.triangle_cases (ast) -- do not edit",
+         "namespace TV.Generated.C11",
+         f"def codeBase : Int := {base}", f"def shifts : List Nat := {shifts}", f"def keyLen : Nat := {keylen}",
+         f"def basicKeys : List Int := {masks['basic']}", f"def oneVertexKeys : List Int := {masks['one_vertex']}",
+         f"def oneEdgeKeys : List Int := {masks['one_edge']}", "end TV.Generated.C11"]
+    return {"C11Table.lean": "\n".join(L) + "\n"}
+
+
+def generated_obligations():
+    return 1
